@@ -4,9 +4,15 @@ package props
 
 import (
 	"fmt"
+	"github.com/krotik/ecal/engine"
+	"github.com/krotik/ecal/verifhook"
 	"math/rand"
+	"runtime"
 	"strings"
+	"sync"
+	"sync/atomic"
 	"time"
+	"verif/harness/sched"
 
 	"verif/harness/ev"
 	"verif/harness/tlc"
@@ -129,7 +135,120 @@ func C02(r *ev.Run) {
 	}
 	r.Set("selftest_wrong_protocols_refuted", true)
 
+	// 3. many callers at once: short cascades (a root which adds one or two children, some rules fail) waited for by 16
+	//    callers on 8 workers. Every call must return, with exactly the errors of its own cascade.
+	cascadeHammer(r, 16, pick(tier, 1500, 15000), 8)
+
 	// 2. real processor runs validated against the property-level specification
 	runCascades(r, rng, map[string]bool{"waitret": true, "final": true, "finished": true, "handler": true,
 		"child": true, "activate": true, "skipped": true, "root": true}, "C02")
+}
+
+// cascadeHammer: the windows between adding an event, registering for its end and the end itself are a few instructions
+// wide - they are met by volume. A call which never returns is judged from the goroutine states (callers in
+// WaitGroup.Wait, no worker running an action), not from the time it took.
+func cascadeHammer(r *ev.Run, callers, calls, workers int) {
+	verifhook.Set(func(string, ...interface{}) {})
+	proc := engine.NewProcessor(workers)
+	proc.ThreadPool().TooManyCallback = func() {}
+	proc.AddRule(&engine.Rule{Name: "root", KindMatch: []string{"h.root"}, ScopeMatch: []string{}, Priority: 0,
+		Action: func(p engine.Processor, m engine.Monitor, e *engine.Event, tid uint64) error {
+			n, _ := e.State()["n"].(int)
+			for c := 0; c < 1+n%2; c++ {
+				p.AddEvent(engine.NewEvent(fmt.Sprintf("%s.c%d", e.Name(), c), []string{"h", "child"}, map[interface{}]interface{}{"n": n, "c": c}), m.NewChildMonitor(0))
+			}
+			return nil
+		}})
+	proc.AddRule(&engine.Rule{Name: "child", KindMatch: []string{"h.child"}, ScopeMatch: []string{}, Priority: 0,
+		Action: func(p engine.Processor, m engine.Monitor, e *engine.Event, tid uint64) error {
+			if n, _ := e.State()["n"].(int); n%3 == 0 {
+				return fmt.Errorf("fail %s", e.Name())
+			}
+			return nil
+		}})
+	proc.Start()
+	var progress, wrong int64
+	var wrongMsg atomic.Value
+	var wg sync.WaitGroup
+	for c := 0; c < callers; c++ {
+		c := c
+		wg.Add(1)
+		go func() {
+			defer wg.Done()
+			for k := 0; k < calls; k++ {
+				n := c*calls + k
+				name := fmt.Sprintf("E%d", n)
+				root := proc.NewRootMonitor(nil, nil)
+				proc.AddEventAndWait(engine.NewEvent(name, []string{"h", "root"}, map[interface{}]interface{}{"n": n}), root)
+				// exactly the errors of this cascade: one per child if n is a multiple of three
+				want := 0
+				if n%3 == 0 {
+					want = 1 + n%2
+				}
+				got := 0
+				foreign := ""
+				for _, te := range root.AllErrors() {
+					got += len(te.ErrorMap)
+					if !strings.HasPrefix(te.Event.Name(), name+".") {
+						foreign = te.Event.Name()
+					}
+				}
+				if got != want || foreign != "" {
+					atomic.AddInt64(&wrong, 1)
+					wrongMsg.Store(fmt.Sprintf("cascade of %s: %d error entries (expected %d) %s", name, got, want, foreign))
+				}
+				atomic.AddInt64(&progress, 1)
+			}
+		}()
+	}
+	done := make(chan struct{})
+	go func() { wg.Wait(); close(done) }()
+	last, lastChange := int64(-1), time.Now()
+	stuck := false
+	for !stuck {
+		select {
+		case <-done:
+			stuck = true
+			lastChange = time.Time{}
+		case <-time.After(200 * time.Millisecond):
+			if p := atomic.LoadInt64(&progress); p != last {
+				last, lastChange = p, time.Now()
+			} else if time.Since(lastChange) > 5*time.Second {
+				stuck = true
+			}
+		}
+	}
+	total := int64(callers * calls)
+	r.Set("hammer_calls", atomic.LoadInt64(&progress))
+	r.Case(fmt.Sprintf("hammer/%d/%d/%d", callers, calls, workers), true)
+	if !lastChange.IsZero() {
+		// no call returned for five seconds: who waits where?
+		waiting, acting := 0, 0
+		for _, st := range sched.GoroutineStates() {
+			_ = st
+		}
+		buf := make([]byte, 4<<20)
+		dump := string(buf[:runtime.Stack(buf, true)])
+		for _, blk := range strings.Split(dump, "\n\n") {
+			if strings.Contains(blk, "AddEventAndWait") && strings.Contains(blk, "sync.WaitGroup.Wait") {
+				waiting++
+			}
+			if strings.Contains(blk, "props.cascadeHammer.func") && strings.Contains(blk, "ProcessEvent") {
+				acting++
+			}
+		}
+		if waiting > 0 && acting == 0 {
+			r.Violation("C02 AddEventAndWait never returns although its cascade has finished", fmt.Sprintf("%d of %d calls returned; %d callers wait in AddEventAndWait while no worker runs an action", atomic.LoadInt64(&progress), total, waiting),
+				map[string]interface{}{"callers": callers, "calls": calls, "workers": workers})
+		} else {
+			r.Inconclusive(fmt.Sprintf("hammer made no progress for 5 s (%d callers waiting, %d actions running)", waiting, acting))
+		}
+		go proc.ThreadPool().SetWorkerCount(0, false)
+		return
+	}
+	if w := atomic.LoadInt64(&wrong); w > 0 {
+		msg, _ := wrongMsg.Load().(string)
+		r.Violation("C02 a waited-for cascade reports other errors than its own", fmt.Sprintf("%d of %d calls: %s", w, total, msg), map[string]interface{}{"callers": callers, "calls": calls, "workers": workers})
+	}
+	proc.Finish()
 }
